@@ -1,3 +1,4 @@
+import MQ.Inv.HeadFrame
 import MQ.Inv.RingMain
 /-!
 # C03 — capacity bound: never more than N unconsumed values, never an overwrite
@@ -42,5 +43,16 @@ theorem C03_tail_cache_partial (N : Nat) (bcast : Bool) (wait : WaitK) (fut : Bo
 example : GoodRun (init 2 true .busy false) [] (init 2 true .busy false) ∧
     (0 : Nat) ∈ (init 2 true .busy false).groups (init 2 true .busy false).cur :=
   ⟨GoodRun.nil _, by simp [init, upd]⟩
+
+/-- C03 / C01 (structural — every state, every interleaving, no exclusion): the write index and the log of accepted
+values move together. Every step leaves both alone, except the claim step `hd` of a position `h`, which sets the index
+to `h + 1` and appends exactly the caller's value to the log. So a slot is claimed for exactly one accepted value, the
+index never moves without a value being accepted (nor a value accepted without the index moving), and nothing but a
+sender's claim — which comes after the full-test (`C03_window_partial`) — moves it. -/
+theorem C03_write_index_and_log_move_together (σ : St) (t inp : Nat) :
+    ((stepRun σ t inp).2.head = σ.head ∧ (stepRun σ t inp).2.log = σ.log) ∨
+    (∃ m h, (σ.th t).pc = .hd m h ∧ (stepRun σ t inp).2.head = h + 1 ∧
+      (stepRun σ t inp).2.log = σ.log ++ [(σ.th t).v]) :=
+  head_log_together σ t inp
 
 end MQ
